@@ -372,8 +372,13 @@ func (l *NDNLPLinkService) handleIncomingFrame(frame []byte) {
 			copy(pkt.PitToken, LP.PitToken)
 		}
 
-		// Copy fragment to wire buffer
-		wire = wire[:0]
+		// Copy fragment to wire buffer. A reassembled packet gets a buffer of its own:
+		// its pieces include the payload of this very frame, which lives in wire.
+		if len(fragment) > 1 {
+			wire = make([]byte, 0, defn.MaxNDNPacketSize)
+		} else {
+			wire = wire[:0]
+		}
 		for _, b := range fragment {
 			wire = append(wire, b...)
 		}
